@@ -4,7 +4,7 @@ from contracts import c11
 LEVEL = "other"
 TRUSTED = ["z3 / cvc5 String theory"]
 ASSUMPTIONS = ["node names are arbitrary strings"]
-EXPLANATION = ("Proved (PyVC + String theory, unbounded): get_expanded_edge, get_expanded_additional_starts/ends and the round trip condense(expand(p)) = p of get_condensed_paths on the real source. "
+EXPLANATION = ("Proved (PyVC + String theory, unbounded): get_expanded_edge, get_expanded_additional_starts/ends, the expansion of sub-path constraints (node lists -> (n.0,n.1) per node; edge lists -> node edge, (u.1,v.0) per edge and the closing node edge; ValueError exactly for absent elements; no state carried from one constraint to the next) with its dispatcher, and the round trip condense(expand(p)) = p of get_condensed_paths on the real source. "
                "Bounded: node-weighted model vs explicitly expanded edge-weighted model (same solved status and objective, original names) on the small universe (rc/p_C11.py).")
 
 
@@ -24,7 +24,7 @@ def bounded(tier, seed):
 
 MANIFEST = dict(
     category="other",
-    text="Contract-based proof of the name translations (expand / condense round trip) on the real NodeExpandedDiGraph methods with the SMT String theory + bounded relational check node-weighted vs expanded instance.",
+    text="Contract-based proof of the name translations (nodes, edges, additional starts/ends, sub-path constraints; expand / condense round trip) on the real NodeExpandedDiGraph methods with the SMT String theory + bounded relational check node-weighted vs expanded instance.",
     design_ref="DESIGN.md section 3 / C11",
     note="Equality of optima between the two instances is decided only by the bounded comparison. Trusted: HiGHS, z3/cvc5 strings.",
     technique="contract-based deductive verification of the name translations (PyVC, String theory) + bounded relational runtime check",
